@@ -376,6 +376,31 @@ def _r3_r9(ctx):
                 ctx.check(okc, "R9", "only-an-absent-subnet-list-matches-everyone", ctx.where(b, tm["sp"]),
                           "the condition must be self.subnet.as_ref().map(any-member-contains).unwrap_or(true); found chain %s over %s — an "
                           "empty list (what the default rules get when no addresses are configured) must match nobody" % (chain, show(y)[:40]))
+        # the unix condition is conjoined with what was found before, not assigned over it: the comparison's result reaches the
+        # accumulator only on the edge where the accumulator was still true
+        for bb, idx, st in b.stmts():
+            rv = st.get("rv")
+            if not rv or len(st["p"]) != 1 or b.local_ty(st["p"][0]) != "bool" or rv["k"] != "bin" or rv["op"] not in ("Eq", "Ne"):
+                continue
+            t = norm(T.rvalue(rv, bb, idx))
+            if not any(y[0] == "call" and str(y[1]).endswith("as_unix_addr") for y in subterms(t)):
+                continue
+            acc = [l for l in range(len(b.locals)) if b.local_name(l) is not None and b.local_ty(l) == "bool" and l > b.arg_count and
+                   any(tuple(s2["p"]) == (l,) and s2.get("rv") and s2["rv"]["k"] == "use" and s2["rv"]["op"].get("k", {}).get("bool") is True for _, _, s2 in b.stmts())]
+            if len(acc) != 1:
+                continue          # no single accumulator initialised to true: another shape (the match / early-return forms have their own clauses)
+            L = acc[0]
+            kept = []
+            for sb, t2 in b.terms():
+                if t2["k"] == "switch" and op_place(t2["discr"]) is not None:
+                    src = op_place(t2["discr"])
+                    # the switch reads the accumulator (directly or through a copy made in the same block)
+                    reads = src == (L,) or any(s2.get("rv") and s2["rv"]["k"] == "use" and tuple(s2["p"]) == src and op_place(s2["rv"]["op"]) == (L,)
+                                               for s2 in b.blocks[sb]["stmts"])
+                    if reads:
+                        kept += [(sb, tgt) for v, tgt in cfg.switch_edges(sb) if v != 0]
+            ctx.check(edge_dominated(cfg, kept, bb), "R9", "unix-condition-is-conjoined", ctx.where(b, st["sp"]),
+                      "the unix comparison is evaluated into `%s` without regard to its previous value: a rule's conditions must all hold" % b.local_name(L))
         # the result is Some(&permission) only when the conjunction holds
         somes = [(bb, idx, s) for bb, idx, s in b.stmts() if s["p"] == (0,) and "rv" in s and s["rv"]["k"] == "agg" and s["rv"].get("variant") == "Some"]
         okk = bool(somes)
@@ -587,6 +612,21 @@ def _r6(ctx):
             ctx.check(inclusive, "R6", "contains:%s:%s" % (tag, "closed-range" if inclusive else "half-open-range"), ctx.where(b, tm["sp"]),
                       "a prefix contains every address from its network address to its highest one inclusive; %s leaves the highest out" % cn)
     ctx.floor("R6", "prefix containment comparisons", n, 3)
+    # the mask of a prefix of full length: `MAX >> prefixlen` with prefixlen equal to the width must come out 0 (checked_shr(..)
+    # .unwrap_or(0)); a wrapping shift reduces the amount modulo the width, shifts by 0 and turns a host prefix (/32, /128 — the default
+    # rules list ::1/128) into "everybody"
+    nm = 0
+    for fid, b in P.bodies.items():
+        root = fid.split("::{")[0]
+        if not (root.endswith("::netmask") and any(t in root for t in ("Prefix4", "Prefix6", "Ipv4Subnet"))) or "::test" in fid:
+            continue
+        nm += 1
+        ctx.saw(b)
+        bad = [P.rel(tm["sp"]) for bb, tm in b.calls() if (callee_name(tm) or "").rsplit("::", 1)[-1] in ("wrapping_shr", "wrapping_shl", "overflowing_shr", "overflowing_shl",
+                                                                                                         "unchecked_shr", "unchecked_shl", "rotate_right", "rotate_left")]
+        ctx.check(not bad, "R6", "netmask-shift-is-checked:%s" % root.rsplit("::", 2)[-2].split(" ")[0][-12:], ctx.where(b),
+                  "the netmask is computed with a shift that wraps its amount (%s): a prefix of full length then has the empty mask" % (bad or "-"))
+    ctx.floor("R6", "netmask functions", nm, 2)
     # all four family combinations dispatch to an implementation
     f = [x for x in P.bodies if "erbium::config::Prefix as erbium::config::Match<std::net::IpAddr>>::contains" in x]
     ctx.floor("R6", "Prefix::contains(IpAddr)", len(f), 1)
